@@ -185,7 +185,15 @@ def targeted_mutants(doc_small, doc_shipped):
         bad_rules["syntax error nested behind non-ASCII text (shift %d)" % pad] = '(request.target.host =~ "%s测试.中国.пример.испытание" && ((((1 +)))))' % x
         bad_rules["type error nested behind non-ASCII text (shift %d)" % pad] = '(request.target.host == "%sбольшой-и-длинный-хост.рф" && ((((request.target.port + "%s测试")))))' % (x, "é" * 300)
         bad_rules["non-ASCII comment before a syntax error (shift %d)" % pad] = '/* %sкомментарий 注释 %s */ (request.listener == )' % (x, "ü" * 400)
+        # almost all of the quoted line is multi-byte text, so a cut anywhere in the message is likely to hit it
+        bad_rules["syntax error behind a long CJK literal (shift %d)" % pad] = '(request.target.host =~ "%s%s" && (1 +))' % (x, "测试中国" * 60)
+        bad_rules["syntax error behind a long Cyrillic literal (shift %d)" % pad] = '((request.target.host == "%s%s") || ((2 *)))' % (x, "пример" * 70)
         bad_rules["valid filter with non-ASCII literals (shift %d)" % pad] = 'request.target.host == "%s测试.中国" || request.target.host =~ "пример$"' % x
+    # a family around one shape: the error message quotes the offending line once per grammar level, so its length and the
+    # position of every multi-byte character in it move with the literal's length and with the nesting depth
+    for n in range(12):
+        for depth in (1, 2, 3):
+            bad_rules["syntax error after a non-ASCII literal (literal +%d bytes, depth %d)" % (n, depth)] = '(request.target.host =~ "%s测试.中国" && %s1 +%s)' % ("a" * n, "(" * depth, ")" * depth)
     for rname, f in bad_rules.items():
         m("rule filter: " + rname, doc_small, lambda d, f=f: d["rules"].insert(0, {"filter": f, "target": "direct"}), "rule")
     for depth in (10, 100, 1000, 10000, 100000):
